@@ -48,6 +48,10 @@ type c20Phase struct {
 	// the merged region (the second region is dead now, its establisher still waits for the dial); then
 	// the dial completes.
 	DuringDial bool `json:"during_dial,omitempty"`
+	// DialerDies: of the two regions used at once, the one that is merged away is the one that got to dial;
+	// LateDial: the held dial does not notice a cancellation any more, it completes with a good connection
+	DialerDies bool `json:"dialer_dies,omitempty"`
+	LateDial   bool `json:"late_dial,omitempty"`
 }
 
 type c20Case struct {
@@ -144,7 +148,7 @@ func c20RunInBubble(c c20Case) (out Outcome) {
 			anyFault = true
 		}
 		if ph.DuringDial {
-			did, o := c20DuringDial(cl, client, c.Layout.Table, addrs, usedRegions, pi)
+			did, o := c20DuringDial(cl, client, c.Layout.Table, addrs, usedRegions, pi, ph)
 			if o != nil {
 				return *o
 			}
@@ -273,6 +277,10 @@ func c20Gen(t *rapid.T) c20Case {
 		ph.FaultServer = rapid.IntRange(0, 3).Draw(t, "faultserver")
 		ph.LateBatch = rapid.IntRange(0, 3).Draw(t, "latebatch") == 0
 		ph.DuringDial = rapid.IntRange(0, 3).Draw(t, "duringdial") == 0
+		if ph.DuringDial {
+			ph.DialerDies = rapid.Bool().Draw(t, "dialerdies")
+			ph.LateDial = rapid.Bool().Draw(t, "latedial")
+		}
 		ph.Change = rapid.SampledFrom([]string{"", "", "split", "merge", "move", "transient"}).Draw(t, "change")
 		if ph.Change == "transient" {
 			ph.ChangeClass = rapid.SampledFrom(c04TransientClasses).Draw(t, "class")
@@ -303,7 +311,7 @@ func TestC20_OneConnection(t *testing.T) {
 // c20DuringDial plays the schedule described at c20Phase.DuringDial. No virtual time may pass and no
 // synctest.Wait may be used while the dial is held: establishers queue on the region client's dial-once
 // lock, which is not a durable block.
-func c20DuringDial(cl *sim.Cluster, client gohbase.Client, table string, addrs []string, used map[string]bool, pi int) (bool, *Outcome) {
+func c20DuringDial(cl *sim.Cluster, client gohbase.Client, table string, addrs []string, used map[string]bool, pi int, ph c20Phase) (bool, *Outcome) {
 	if len(addrs) < 2 {
 		return false, nil
 	}
@@ -336,7 +344,8 @@ func c20DuringDial(cl *sim.Cluster, client gohbase.Client, table string, addrs [
 	for _, r := range []*sim.Region{ra, rb, rc} {
 		used[string(r.Name)] = true
 	}
-	cl.SetServer(target, func(s *sim.ServerState) { s.DialHold = true })
+	cl.SetServer(target, func(s *sim.ServerState) { s.DialHold, s.DialLate = true, ph.LateDial })
+	defer cl.SetServer(target, func(s *sim.ServerState) { s.DialLate = false })
 	mk := func(x string) string { return fmt.Sprintf("mkdd%d%s", pi, x) }
 	var wg sync.WaitGroup
 	errs := make([]error, 3)
@@ -352,8 +361,19 @@ func c20DuringDial(cl *sim.Cluster, client gohbase.Client, table string, addrs [
 		}()
 	}
 	keyC := append([]byte(nil), rc.Start...)
-	use(0, ra.Start, mk("a"))
-	use(1, rb.Start, mk("b"))
+	if ph.DialerDies {
+		// the region that will be merged away goes first: it is the one that carries out the dial
+		use(1, rb.Start, mk("b"))
+		select {
+		case <-cl.DialHeld:
+			cl.DialHeld <- struct{}{}
+		case <-time.After(time.Minute):
+		}
+		use(0, ra.Start, mk("a"))
+	} else {
+		use(0, ra.Start, mk("a"))
+		use(1, rb.Start, mk("b"))
+	}
 	select {
 	case <-cl.DialHeld:
 	case <-time.After(time.Minute):
